@@ -664,6 +664,13 @@ SPECS["C04"]["parts"].append([dict(p) for p in SPECS["C01"]["parts"] if p["name"
 # C03 promises an answer: C13's framing exploration (limits, second batch on the same connection) decides that clause
 SPECS["C03"]["parts"].append([dict(p) for p in SPECS["C13"]["parts"] if p["name"] == "framing"][0])
 
+# C01 ("no input crashes the proxy") also covers inputs that are valid DNS but hit a size / depth boundary of the code behind the
+# decoder: the frame-size sweep of C03 and the label-depth / octet sweeps of C11 (a panic there kills the process all the same)
+SPECS["C01"]["parts"].append([dict(p) for p in SPECS["C03"]["parts"] if p["name"] == "query-sizes"][0])
+SPECS["C01"]["parts"].append([dict(p) for p in SPECS["C11"]["parts"] if p["name"] == "matcher"][0])
+# ... and valid but unusual queries (root name, 255-octet names, odd octets, every opcode / flag) through every listener seam
+SPECS["C01"]["parts"].append([dict(p) for p in SPECS["C03"]["parts"] if p["name"] == "router"][0])
+
 # --------------------------------------------------------------------------------------------
 # Properties not (yet) claimed. Kept current: every property without a SPECS entry must be here.
 NOT_APPLICABLE = {
